@@ -138,7 +138,9 @@ def _routes(res, tier, lo, hi, only_event=None):
             res.states += 1
             for c in sorted({b[0] for b in base}):
                 exp = [b for b in base if b[0] != c]
-                for route in ("cli", "override", "top-level"):
+                # override: on the module itself; override-parent: on its package (applies to submodules); override-prefix / override-longer: on
+                # a *different* module whose dotted name is a string prefix / extension of this one (must change nothing)
+                for route in ("cli", "override", "top-level", "override-parent", "override-prefix", "override-longer"):
                     ev = ["route", route, c]
                     if only_event is not None and only_event != ev:
                         continue
@@ -147,14 +149,19 @@ def _routes(res, tier, lo, hi, only_event=None):
                     else:
                         cfg = os.path.join(d, "r.toml")
                         with open(cfg, "w") as f:
-                            if route == "override":
-                                f.write('[tool.pyanalyze]\nimport_paths = ["%s"]\n[[tool.pyanalyze.overrides]]\nmodule = "%s.mod"\n%s = false\n' % (d, pkg, c))
+                            if route.startswith("override"):
+                                target = {"override": pkg + ".mod", "override-parent": pkg, "override-prefix": pkg + ".mo", "override-longer": pkg + ".mod_x"}[route]
+                                f.write('[tool.pyanalyze]\nimport_paths = ["%s"]\n[[tool.pyanalyze.overrides]]\nmodule = "%s"\n%s = false\n' % (d, target, c))
                             else:
                                 f.write('[tool.pyanalyze]\nimport_paths = ["%s"]\n%s = false\n' % (d, c))
                         got, err = _cli(["--config-file", cfg, fn], d)
                     res.states += 1
                     res.transitions += 1
                     res.validated += 1
+                    if route in ("override-prefix", "override-longer"):
+                        exp = list(base)
+                    else:
+                        exp = [b for b in base if b[0] != c]
                     res.outcomes["route-%s:%s" % (route, "projection" if got == exp else "differs")] += 1
                     if got != exp:
                         res.violation({"kind": "disable-not-projection", "route": route, "in_string": "0", "lost": ",".join(sorted({g[0] for g in exp if got is None or g not in got})),
@@ -246,6 +253,9 @@ def _run_base(res, tier, sel, order0, only_event=None):
         return      # programs carrying the marker inside a string literal are judged by (0) and (a) only: their baseline already depends on that literal
     other = "bad_format_string" if "bad_format_string" not in codes else "undefined_name"
     variants = [None] + codes + [other]
+    # a code that is only raised (and captured) while an operator tries its candidate dunder calls, never reported by itself
+    if "incompatible_argument" not in variants and any(l.strip() in ("print(a + s)", "a += s") for l in lines):
+        variants.append("incompatible_argument")
     Dmode = {}
     modes = [(False, False), (True, True)]      # (unused_ignore, bare_ignore) enabled?
     for li in range(len(lines) + 1):
